@@ -145,6 +145,11 @@ class Ctx:
             self.c.functions.update(chosen)
         return self.c
 
+    def load_records(self, relfile, names, include=()):
+        from . import cinterp
+
+        self.c.records.update(cinterp.load_records(self.interp.repo, relfile, names, include))
+
     def ccall(self, name, *args):
         from . import cinterp
 
